@@ -231,6 +231,14 @@ func genStageCase(r *h.Rand) h.Case {
 		}
 		want += fmt.Sprint(k)
 	}
+	if piped && r.Chance(35) {
+		// the expression that names a later stage's function is evaluated when that stage is reached: after the
+		// stages before it (a call inside it is recorded after theirs)
+		k := 70 + r.Intn(9)
+		src += fmt.Sprintf(" | probe(%d, pm3).Cat", k)
+		want = "p(" + want + ")"
+		ids = append(ids, k)
+	}
 	p.files["/main.jet"] = "[{{ " + src + " }}]"
 	log := sx.L()
 	for _, k := range ids {
